@@ -370,7 +370,9 @@ def genexec_measure(seed: int, n: int) -> dict:
         if not isinstance(lgs[q['case']], Exception): q['lg'] = lg_payload(lgs[q['case']])
         return q
     hand, gen = genexec.run_both([{'op': 'classes', 'case': i, 'lang': lang_payload(s)} for i, s in enumerate(specs)], 'gen_classes', rewrite=twin)
+    import gc
     for i, spec in enumerate(specs):
+        if i % GC_EVERY == 0: gc.collect()           # see `run`
         st['cases'] += 1
         if isinstance(lgs[i], Exception):
             st['impl_crash'] += 1; note('impl-crash', f'LanguageGraph(): {type(lgs[i]).__name__}'); continue
@@ -403,6 +405,7 @@ def genexec_measure(seed: int, n: int) -> dict:
     hand, gen = genexec.run_both([{'op': 'model_hist', 'case': i, 'lang': lang_payload(s), 'ops': hists[i]} for i, s in enumerate(specs)], 'gen_model_hist')
     for k in ('hist_cases', 'hist_impl_ne_hand', 'hist_gen_follows_impl', 'hist_gen_ne_impl', 'raised_halfway'): st[k] = 0
     for ci, spec in enumerate(specs):
+        if ci % GC_EVERY == 0: gc.collect()
         st['cases'] += 1; st['hist_cases'] += 1
         if 'error' in hand[ci] or 'error' in gen[ci]:
             note('driver-error', [hand[ci].get('error'), gen[ci].get('error')]); continue
